@@ -145,6 +145,13 @@ pub trait Property: Send + Sync + 'static {
     fn on_uncaught_panic(&self, msg: &str) -> Verdict {
         Verdict::Skip(format!("panic:{}", panic_site(msg)))
     }
+    /// THOROUGH TIER ONLY: a family-level signature for an unclassified shape of this property's open root causes
+    /// (None = report strictly).  Used where a few root causes show up in an open-ended number of shapes, so that long
+    /// runs keep searching instead of reporting the same root causes for ever.  The mapped signature is only tolerated
+    /// if KNOWN_FINDINGS.json lists it as open; the quick tier never applies it.
+    fn thorough_family(&self, _case: &Self::Case, _fail: &Fail) -> Option<String> {
+        None
+    }
     /// simpler variants of a failing case, tried greedily after proptest's own shrinking (e.g. text ddmin)
     fn simplify(&self, _case: &Self::Case) -> Vec<Self::Case> {
         vec![]
@@ -432,7 +439,14 @@ fn run_shard<P: Property>(
             let (v, obs) = eval_case(&*p, &mut exec, &case, &mut st);
             record(&*p, &case, &v, obs, &mut st);
             if let Verdict::Fail(f) = v {
-                if open_sigs.iter().any(|s| *s == f.sig) {
+                let family = if tier == Tier::Thorough && !open_sigs.iter().any(|s| *s == f.sig) {
+                    p.thorough_family(&case, &f).filter(|fam| open_sigs.iter().any(|s| s == fam))
+                } else {
+                    None
+                };
+                if let Some(fam) = family {
+                    *st.known_hits.entry(fam).or_default() += 1;
+                } else if open_sigs.iter().any(|s| *s == f.sig) {
                     *st.known_hits.entry(f.sig.clone()).or_default() += 1;
                 } else {
                     // fixed cases get the second-stage minimisation too (whole corpus files are large)
@@ -446,6 +460,7 @@ fn run_shard<P: Property>(
         return (st, None);
     }
 
+    let thorough_tier = tier == Tier::Thorough;
     let config = Config {
         cases,
         failure_persistence: None,
@@ -482,7 +497,17 @@ fn run_shard<P: Property>(
             }
             match v {
                 Verdict::Fail(f) => {
-                    if open_sigs.iter().any(|s| *s == f.sig) {
+                    let family = if thorough_tier && !open_sigs.iter().any(|s| *s == f.sig) {
+                        p2.thorough_family(&case, &f).filter(|fam| open_sigs.iter().any(|s| s == fam))
+                    } else {
+                        None
+                    };
+                    if let Some(fam) = family {
+                        if !failed_cell.get() {
+                            *st_ref.known_hits.entry(fam).or_default() += 1;
+                        }
+                        Ok(())
+                    } else if open_sigs.iter().any(|s| *s == f.sig) {
                         if !failed_cell.get() {
                             *st_ref.known_hits.entry(f.sig.clone()).or_default() += 1;
                         }
@@ -571,6 +596,10 @@ fn replay_known<P: Property>(p: &P, ctx: &RunCtx, open: &[findings::Entry]) -> V
     let mut out = vec![];
     let mut exec = make_exec(p, &ctx.verif_root);
     for e in open {
+        if e.witness.is_empty() {
+            // family-level entries (thorough tier) have no pinned witness
+            continue;
+        }
         let path = ctx.verif_root.join(&e.witness);
         let Ok(text) = std::fs::read_to_string(&path) else {
             println!("NOTE: witness {} of {} is missing", e.witness, e.id);
